@@ -73,7 +73,7 @@ def entry_exp(Y, idx):
     return m, e
 
 
-def replay_rounding_stab(ctx, rng, quick):
+def replay_rounding_stab(ctx, rng, quick, count=None):
     """Stabilised rounding at the thresholds: members of the distinct-last-index family (Rounding.tla, exact outcomes for
     every threshold T + 1/2 and cap) with every core scaled by 2^450 or 2^-150, so that the tensor or at least its squared norm is outside
     the double range.  Ranks must be the specification's, the discarded part (through Gram chains of the normalised
@@ -81,7 +81,7 @@ def replay_rounding_stab(ctx, rng, quick):
     from . import rounding as RD
     cases = RD.emit(ctx, 'Rounding_c02_q.cfg', 'Rounding rtl (thresholds for stabilised rounding far outside the double range)', workers=16)
     cases = [c for c in cases if not RD.tiered(c) and not any(o['tie'] for o in c['outcomes']) and c['N'] > 0]
-    for j in rng.permutation(len(cases))[:(500 if quick else 5000)]:
+    for j in rng.permutation(len(cases))[:(count or (500 if quick else 5000))]:
         case = cases[j]
         d = case['d']
         base, n = F.family_member(d, case['npre'], RD.phys_ent(case))
